@@ -11,7 +11,7 @@
    Theorems named *_refuted record genuine defects of /repo (known_findings/C14.json); *_partial hold on the stated region only. *)
 From Coq Require Import ZArith List Bool String.
 From Coq Require Import Floats.SpecFloat.
-From PV Require Import Lib.PyBase Spec.Cal Spec.Zone Spec.TdFloat Model.Duration Model.Pickle Proofs.ZoneFacts Proofs.C09Facts Proofs.C14Facts.
+From PV Require Import Lib.PyBase Spec.Cal Spec.Zone Spec.TdFloat Model.Duration Model.Pickle Model.PickleHistory Proofs.ZoneFacts Proofs.C09Facts Proofs.C14Facts Proofs.C14History.
 Import ListNotations.
 Open Scope Z_scope.
 
@@ -220,3 +220,40 @@ Print Assumptions roundtrip_interval_pickle_refuted.
 Theorem roundtrip_interval_deepcopy_refuted : forall zdb iv, iv_rebuild zdb RDeep iv = Raise E_TypeError.
 Proof. exact iv_deep_raises. Qed.
 Print Assumptions roundtrip_interval_deepcopy_refuted.
+
+(* ---- copies in a process with a history (Model/PickleHistory.v): the per-offset cache behind pendulum.timezone(<int>) / tz=<number> / instance().
+   `hist_run zdb before r v after` = the calls `before`, then the copy of v along route r, then the calls `after`, in one process that starts fresh;
+   `cache_ok c`: every entry of the cache is the default-named FixedTimezone of its own offset. *)
+(* the cache is transparent: the factory hands out, after any history, what it hands out in a fresh process (same name, same offset, same exception) *)
+Theorem fixed_timezone_cache_transparent : forall ops off,
+  fst (fixed_timezone (fst (hrun [] ops)) off) = fst (fixed_timezone [] off) /\ cache_ok (fst (hrun [] ops)).
+Proof. exact (fun ops off => conj (fixed_timezone_transparent _ off (hrun_ok ops [] cache_ok_nil)) (hrun_ok ops [] cache_ok_nil)). Qed.
+Print Assumptions fixed_timezone_cache_transparent.
+
+(* configuration = what the SUCCESSFUL calls left: a call that raises (offset beyond timedelta's range) leaves the cache unchanged *)
+Theorem failed_call_keeps_cache : forall c off e, fst (fixed_timezone c off) = Raise e -> snd (fixed_timezone c off) = c.
+Proof. exact fixed_timezone_failed_keeps. Qed.
+Print Assumptions failed_call_keeps_cache.
+
+(* constructing or copying a value never touches the cache: only the factory call does *)
+Theorem only_the_factory_writes_the_cache : forall c o,
+  fst (hstep c o) = match o with HTimezoneInt off => snd (fixed_timezone c off) | _ => c end.
+Proof. exact hstep_cache. Qed.
+Print Assumptions only_the_factory_writes_the_cache.
+
+(* the original, its copy, and everything the earlier and later calls return are what they are in a fresh process *)
+Theorem copy_result_independent_of_history : forall zdb before r v after,
+  hr_orig (hist_run zdb before r v after) = hr_orig (hist_run zdb [] r v []) /\
+  hr_copy (hist_run zdb before r v after) = hr_copy (hist_run zdb [] r v []) /\
+  hr_before (hist_run zdb before r v after) = map (fun o => snd (hstep [] o)) before /\
+  hr_after (hist_run zdb before r v after) = map (fun o => snd (hstep [] o)) after /\
+  cache_ok (hr_cache (hist_run zdb before r v after)).
+Proof. exact hist_run_independent. Qed.
+Print Assumptions copy_result_independent_of_history.
+
+(* a FixedTimezone with an explicit name comes back with that name on every route after every history - in particular when the cache
+   already holds the default-named zone of the same offset (pendulum.timezone(19800) earlier, FixedTimezone(19800, "IST") copied) *)
+Theorem roundtrip_fixed_timezone_after_any_history : forall zdb before r off name after, td_in_range (off * US_PER_SEC) = true ->
+  hr_copy (hist_run zdb before r (HvTz (TzFixed off name)) after) = 0 :: tz_obs (TzFixed off name).
+Proof. exact hist_fixed_named. Qed.
+Print Assumptions roundtrip_fixed_timezone_after_any_history.
